@@ -22,7 +22,7 @@ import (
 
 type life struct {
 	Msgs int    `json:"msgs"`
-	End  string `json:"end"` // err | eof
+	End  string `json:"end"` // err | eof | srvcancel
 }
 
 // scriptedCore: a CoreRPC server whose watch streams follow a script of "lives".
@@ -55,8 +55,11 @@ func (s *scriptedCore) next(req string) (int, life, bool) {
 }
 
 func endOf(l life) error {
-	if l.End == "eof" {
+	switch l.End {
+	case "eof":
 		return nil
+	case "srvcancel": // the SERVER ends the stream with status Canceled (e.g. a handler returning its own context error); the caller is still there
+		return status.Error(codes.Canceled, "scripted server-side cancel")
 	}
 	return status.Error(codes.Unavailable, "scripted break")
 }
